@@ -1,6 +1,9 @@
 package checks
 
-import "math"
+import (
+	"math"
+	"net/url"
+)
 
 // Typed Go values referenced by name from cases (so that cases stay JSON-serialisable).
 
@@ -174,6 +177,7 @@ var wrongValues = func() []wrongVal {
 		{"struct", vStruct{Name: "n", Count: 1, priv: 2}}, {"structptr", &vStruct{Name: "p", priv: 3}}, {"outer", vOuter{Title: "t", Ptr: nil, priv: "x"}}, {"embedded", vEmbedded{vInner: vInner{Label: "l"}, Extra: "e"}},
 		{"func", func() string { return "f" }}, {"chan", ch}, {"time", baseTime}, {"self", self}, {"stringer", vStringer{"s"}},
 		{"deep1000", deepNested(1000)}, {"sliceofstruct", []vStruct{{Name: "a"}}}, {"ptrslice", &[]int{1}},
+		{"nil-stringer-ptr", (*url.URL)(nil)}, {"stringer-ptr", &url.URL{Scheme: "x", Host: "h"}},
 	}
 }()
 
